@@ -1313,3 +1313,243 @@ func ruleUpdateConstDecode(c *Ctx, upd *ast.FuncDecl, sw *ast.SwitchStmt) {
 		}
 	}
 }
+
+// ---------------------------------------------------------------- CODEC.4
+
+// guardLimit: among the dominating guards of a node, one of the form
+// `<expr text> > K` (K constant) that returns an error; returns K.
+func (w *World) guardLimit(p *packages.Package, stack []ast.Node, exprText string) (int64, bool) {
+	for _, g := range precedingGuards(stack) {
+		b, ok := ast.Unparen(g.Cond).(*ast.BinaryExpr)
+		if !ok || (b.Op != token.GTR && b.Op != token.GEQ) {
+			continue
+		}
+		if strings.ReplaceAll(w.Src(b.X), " ", "") != strings.ReplaceAll(exprText, " ", "") {
+			continue
+		}
+		k, ok := ConstInt(p, b.Y)
+		if !ok {
+			continue
+		}
+		if b.Op == token.GEQ {
+			k--
+		}
+		return k, true
+	}
+	return 0, false
+}
+
+func ruleCODEC4(c *Ctx) {
+	w := c.W
+	p := w.Root
+	oi := w.opcodes()
+	if oi.err != "" {
+		c.anchor(oi.err)
+		return
+	}
+	constOf := func(name string) (int64, bool) {
+		if co, ok := p.Types.Scope().Lookup(name).(*types.Const); ok {
+			return ConstIntOf(co)
+		}
+		return 0, false
+	}
+	// class-level guards (not local to the emit site)
+	classGuard := map[string]func() (bool, string){
+		"local-index": func() (bool, string) {
+			// every place that fixes a function's NumLocals compares it with a constant <= 256
+			n, good := 0, 0
+			for _, fn := range []string{"Compiler.Compile", "Compiler.compileModule"} {
+				fd := w.FuncDecl(p, fn)
+				if fd == nil {
+					continue
+				}
+				inspectWithStack(fd.Body, func(nd ast.Node, stack []ast.Node) bool {
+					call, ok := nd.(*ast.CallExpr)
+					if !ok || !isMethodOf(Callee(p, call), p.Types, "SymbolTable", "MaxSymbols") {
+						return true
+					}
+					// the value is assigned to some expression E; a later guard `E > K` must exist in the same list
+					var target string
+					for i := len(stack) - 1; i >= 0; i-- {
+						if as, ok := stack[i].(*ast.AssignStmt); ok && len(as.Lhs) == 1 {
+							target = w.Src(as.Lhs[0])
+							break
+						}
+					}
+					if target == "" {
+						return true
+					}
+					n++
+					found := false
+					ast.Inspect(fd.Body, func(m ast.Node) bool {
+						is, ok := m.(*ast.IfStmt)
+						if !ok || !terminates(is.Body) {
+							return true
+						}
+						b, ok := ast.Unparen(is.Cond).(*ast.BinaryExpr)
+						if !ok || b.Op != token.GTR || w.Src(b.X) != target {
+							return true
+						}
+						if k, ok := ConstInt(p, b.Y); ok && k <= 256 && is.Pos() > call.Pos() {
+							found = true
+						}
+						return true
+					})
+					if found {
+						good++
+					}
+					return true
+				})
+			}
+			return n >= 2 && n == good, fmt.Sprintf("%d of %d functions that fix NumLocals reject more than 256 locals", good, n)
+		},
+		"global-index": func() (bool, string) {
+			k, ok := constOf("GlobalsSize")
+			return ok && k <= 1<<16, fmt.Sprintf("globals live in a slice of GlobalsSize=%d slots (checked by PANIC.3 on the Script path; an index beyond it is a run-time bounds error, never an alias)", k)
+		},
+		"builtin-index": func() (bool, string) {
+			lit := w.pkgVarLit(p, "builtinFuncs")
+			if lit == nil {
+				return false, "builtinFuncs not found"
+			}
+			return len(lit.Elts) <= 256, fmt.Sprintf("%d builtin functions", len(lit.Elts))
+		},
+		"const-index": func() (bool, string) {
+			comp := w.FuncDecl(p, "Compiler.Compile")
+			if comp == nil {
+				return false, "Compiler.Compile not found"
+			}
+			ok := containsNode(comp.Body, func(nd ast.Node) bool {
+				is, isIf := nd.(*ast.IfStmt)
+				if !isIf || !terminates(is.Body) {
+					return false
+				}
+				s := w.Src(is.Cond) + w.Src(is.Init)
+				return (strings.Contains(s, "numConstants()") || strings.Contains(s, "len(c.constants)")) && strings.Contains(s, ">")
+			})
+			return ok, "the whole-file arm of Compile rejects constant pools that do not fit two bytes"
+		},
+		"element-count": func() (bool, string) {
+			k, ok := constOf("StackSize")
+			return ok && k <= 1<<16-1, fmt.Sprintf("the elements are on the operand stack, whose StackSize=%d is below 65536: a larger literal fails at run time before the count could be truncated", k)
+		},
+	}
+	localOps := map[string]string{}
+	for _, op := range oi.Names {
+		switch {
+		case strings.HasSuffix(op, "Local") || op == "OpGetLocalPtr":
+			localOps[op] = "local-index"
+		case strings.Contains(op, "Free"):
+			localOps[op] = "free-index"
+		case strings.HasSuffix(op, "Global"):
+			localOps[op] = "global-index"
+		case op == "OpGetBuiltin":
+			localOps[op] = "builtin-index"
+		}
+	}
+	classCache := map[string][2]string{}
+	seq := seqKeys{}
+	for _, es := range w.emitSites() {
+		if es.Kind != "emit" || len(es.Ops) != 1 || es.Spread {
+			continue
+		}
+		op := es.Ops[0]
+		widths := oi.Widths[op]
+		var stack []ast.Node
+		inspectWithStack(es.Fn, func(n ast.Node, st []ast.Node) bool {
+			if n == ast.Node(es.Call) {
+				stack = append([]ast.Node{}, st...)
+			}
+			return true
+		})
+		for i, a := range es.Args {
+			if i >= len(widths) || widths[i] >= 4 {
+				continue
+			}
+			max := int64(1)<<(8*uint(widths[i])) - 1
+			key := seq.next(fmt.Sprintf("operand/%s/%s[%d]", w.ctxKey(es.Call.Pos()), op, i))
+			if k, ok := ConstInt(p, a); ok {
+				c.check(k >= 0 && k <= max, key, es.Call, fmt.Sprintf("constant %d fits %d byte(s)", k, widths[i]), fmt.Sprintf("constant operand %d does not fit %d byte(s)", k, widths[i]))
+				continue
+			}
+			src := strings.ReplaceAll(w.Src(a), " ", "")
+			// a local flag assigned only constants
+			if id, ok := ast.Unparen(a).(*ast.Ident); ok {
+				obj := p.TypesInfo.Uses[id]
+				all, any := true, false
+				ast.Inspect(es.Fn, func(n ast.Node) bool {
+					as, ok := n.(*ast.AssignStmt)
+					if !ok {
+						return true
+					}
+					for j, l := range as.Lhs {
+						if lid, ok := l.(*ast.Ident); ok && (p.TypesInfo.Defs[lid] == obj || p.TypesInfo.Uses[lid] == obj) && j < len(as.Rhs) {
+							any = true
+							if k, ok := ConstInt(p, as.Rhs[j]); !ok || k < 0 || k > max {
+								all = false
+							}
+						}
+					}
+					return true
+				})
+				if any && all {
+					c.ok(key, es.Call, "variable assigned only small constants")
+					continue
+				}
+			}
+			class := ""
+			switch {
+			case strings.HasSuffix(src, ".Index") && func() bool {
+				f, _ := FieldSel(p, a)
+				return f != nil && f.Name() == "Index"
+			}():
+				class = localOps[op]
+			case strings.HasPrefix(src, "c.addConstant(") && strings.HasSuffix(src, ")") && strings.Count(src, "c.addConstant(") == 1 && func() bool {
+				call, ok := ast.Unparen(a).(*ast.CallExpr)
+				return ok && isMethodOf(Callee(p, call), p.Types, "Compiler", "addConstant")
+			}():
+				class = "const-index"
+			case src == "len(node.Elements)" || src == "len(node.Elements)*2":
+				class = "element-count"
+			}
+			if class == "free-index" {
+				// a free index is below the capture count, which the closure site bounds
+				class = "free-count-site"
+			}
+			if class != "" && class != "free-count-site" {
+				r, ok := classCache[class]
+				if !ok {
+					good, why := classGuard[class]()
+					r = [2]string{fmt.Sprint(good), why}
+					classCache[class] = r
+				}
+				c.check(r[0] == "true", key, es.Call, class+": "+r[1], fmt.Sprintf("%d-byte operand %s of %s (%s) is not bounded: %s - MakeInstruction truncates silently, so an over-large value aliases another slot", widths[i], src, op, class, r[1]))
+				continue
+			}
+			if class == "free-count-site" {
+				// the capture list of every function literal is bounded where the closure is emitted
+				fd := w.FuncDecl(p, "Compiler.Compile")
+				good := fd != nil && containsNode(fd.Body, func(nd ast.Node) bool {
+					is, ok := nd.(*ast.IfStmt)
+					if !ok || !terminates(is.Body) {
+						return false
+					}
+					b, ok := ast.Unparen(is.Cond).(*ast.BinaryExpr)
+					if !ok || b.Op != token.GTR || !strings.HasPrefix(w.Src(b.X), "len(freeSymbols") {
+						return false
+					}
+					k, ok := ConstInt(p, b.Y)
+					return ok && k <= 255
+				})
+				c.check(good, key, es.Call, "free-index: below the capture count, which the function-literal arm limits to 255", "free variable index is a 1-byte operand but the number of captured variables is not limited")
+				continue
+			}
+			// site-local guard on the same expression
+			if k, ok := w.guardLimit(p, stack, w.Src(a)); ok {
+				c.check(k <= max, key, es.Call, fmt.Sprintf("dominated by `%s > %d` returning an error", src, k), fmt.Sprintf("guard admits values up to %d but the operand has %d byte(s)", k, widths[i]))
+				continue
+			}
+			c.fail(key, es.Call, fmt.Sprintf("%d-byte operand %s of %s is neither a fitting constant nor dominated by a comparison that bounds it: MakeInstruction truncates silently", widths[i], src, op))
+		}
+	}
+}
